@@ -71,6 +71,17 @@ Theorem C18_fol_contradiction_loss : forall k reg s,
 Proof. intros k reg s Ha HR. split; [apply f_contradiction_loss_nonneg | apply f_contradiction_loss_zero_iff]; assumption. Qed.
 Print Assumptions C18_fol_contradiction_loss.
 
+(* first-order uncertainty loss (coefficient 1; after fix D17): non-negative in EVERY state, also with alpha < 1 where
+   bounds may cross inside one classical region without being a contradiction; zero exactly when no formula that is free
+   of contradictory rows has a row of positive width *)
+Theorem C18_fol_uncertainty_loss : forall k reg s,
+  0 <= f_uncertainty_loss k reg s /\
+  (f_uncertainty_loss k reg s == 0 <->
+   forall i, In i reg -> existsb (fun r => is_contra (falpha (getf k i)) (rcur r)) (ftab s i) = false ->
+             forall r, In r (ftab s i) -> hi (rcur r) <= lo (rcur r)).
+Proof. intros k reg s. split; [apply f_uncertainty_loss_nonneg | apply f_uncertainty_loss_zero_iff]. Qed.
+Print Assumptions C18_fol_uncertainty_loss.
+
 (* first-order supervised loss (MSE over the labelled groundings present in the formula's table): non-negative, zero
    exactly when every such row equals its label -- whatever the order in which labels or rows are listed *)
 Theorem C18_fol_supervised_loss : forall s i labs v, f_supervised_loss s i labs = Some v ->
